@@ -92,6 +92,12 @@ ANNOTATED = [
     'class Both(Base, NamedTuple): field_one: int = 1',
     '@decorator\nclass NotData:\n    field_one: int = 1\n    field_two: str',
     'class Outer:\n    if condition:\n        conditional_field: int = 1\n    class Inner:\n        inner_field: int = 2',
+    # class-level annotated assignments inside every kind of block of the class body are still attributes of the class
+    '@dataclass\nclass Data:\n    with context_value:\n        field_one: int = 1\n    for loop_item in ():\n        field_two: int = 2\n    else:\n        field_three: int\n    while False:\n        field_four: str = ""\n    try:\n        field_five: int = 5\n    except ImportError:\n        field_six: int = 6\n    else:\n        field_seven: int = 7\n    finally:\n        field_eight: int = 8\n    match subject_value:\n        case 1:\n            field_nine: int = 9\n    if condition:\n        with other_context:\n            field_ten: int = 10',
+    'class Point(NamedTuple):\n    with context_value:\n        field_one: int = 1\n    for loop_item in ():\n        field_two: int = 2\n    else:\n        field_three: int\n    while False:\n        field_four: str = ""\n    try:\n        field_five: int = 5\n    except ImportError:\n        field_six: int = 6\n    else:\n        field_seven: int = 7\n    finally:\n        field_eight: int = 8\n    match subject_value:\n        case 1:\n            field_nine: int = 9\n    if condition:\n        with other_context:\n            field_ten: int = 10',
+    'class Movie(TypedDict):\n    with context_value:\n        field_one: int = 1\n    for loop_item in ():\n        field_two: int = 2\n    else:\n        field_three: int\n    while False:\n        field_four: str = ""\n    try:\n        field_five: int = 5\n    except ImportError:\n        field_six: int = 6\n    else:\n        field_seven: int = 7\n    finally:\n        field_eight: int = 8\n    match subject_value:\n        case 1:\n            field_nine: int = 9\n    if condition:\n        with other_context:\n            field_ten: int = 10',
+    'class Plain:\n    with context_value:\n        field_one: int = 1\n    for loop_item in ():\n        field_two: int = 2\n    else:\n        field_three: int\n    while False:\n        field_four: str = ""\n    try:\n        field_five: int = 5\n    except ImportError:\n        field_six: int = 6\n    else:\n        field_seven: int = 7\n    finally:\n        field_eight: int = 8\n    match subject_value:\n        case 1:\n            field_nine: int = 9\n    if condition:\n        with other_context:\n            field_ten: int = 10',
+    'def function_one():\n    @dataclass\n    class Data:\n        with context_value:\n            field_one: int = 1\n        for loop_item in ():\n            field_two: int = 2\n        else:\n            field_three: int\n        while False:\n            field_four: str = ""\n        try:\n            field_five: int = 5\n        except ImportError:\n            field_six: int = 6\n        else:\n            field_seven: int = 7\n        finally:\n            field_eight: int = 8\n        match subject_value:\n            case 1:\n                field_nine: int = 9\n        if condition:\n            with other_context:\n                field_ten: int = 10\n    with context_value:\n        local_value: int = 1',
     'lambda_value = lambda first, /, second: first',
     'def positional(first, second, /, third, *, fourth): return first\nasync def coroutine(first, /): return None',
 ]
